@@ -50,6 +50,14 @@ KeyOf(w) ==
     [] w.t = "cinst"    -> <<"cinst", w.m, w.p, w.c>>
     [] w.t = "key"      -> <<"key", w.m>>
 
+\* runs through the standard library's entry points (verify, batch_verify on batches of one and two): byte-level plan
+StdEntries == {"verify", "batch1", "batch2_first", "batch2_second"}
+StdPlan == { <<"s", e, "identity", 0>> : e \in StdEntries } \cup { <<"s", e, "pi", 0>> : e \in StdEntries }
+           \cup { <<"s", e, "append", n>> : e \in StdEntries, n \in {1, 32, 48} }
+           \cup { <<"s", e, "trunc", n>> : e \in StdEntries, n \in {1, 32} }
+           \cup { <<"s", e, "flip", n>> : e \in StdEntries, n \in 1..8 }
+IsStd(r) == "entry" \in DOMAIN r
+
 Init == l = 1 /\ run = [nproofs |-> 0] /\ seen = {} /\ bits = 0 /\ state = "idle"
 
 THeader == Is("header") /\ UNCHANGED <<run, seen, bits, state>>
@@ -67,6 +75,13 @@ TTamper ==
   /\ seen' = seen \cup {KeyOf(Ev.what)}
   /\ UNCHANGED <<run, bits, state>>
 
+TSTamper ==
+  /\ Is("STamper") /\ state = "run" /\ IsStd(run)
+  /\ Ev.res = Expected(Ev)
+  /\ (Ev.what.t = "identity") <=> (Ev.proof_same /\ Ev.stmt_same /\ Ev.key_same)
+  /\ seen' = seen \cup {<<"s", Ev.what.entry, Ev.what.t, Ev.what.n>>}
+  /\ UNCHANGED <<run, bits, state>>
+
 \* thorough tier: every single-bit flip of the proof was rejected
 TBitFlips ==
   /\ Is("BitFlips") /\ state = "run"
@@ -77,12 +92,12 @@ TBitFlips ==
 
 TEndRun ==
   /\ Is("EndRun") /\ state = "run"
-  /\ Plan(run) \subseteq seen                      \* coverage of the plan
+  /\ (IF IsStd(run) THEN StdPlan ELSE Plan(run)) \subseteq seen      \* coverage of the plan
   /\ run.bits => bits = 8 * run.prooflen
   /\ state' = "idle"
   /\ UNCHANGED <<run, seen, bits>>
 
-Next == THeader \/ TReset \/ TTamper \/ TBitFlips \/ TEndRun
+Next == THeader \/ TReset \/ TTamper \/ TSTamper \/ TBitFlips \/ TEndRun
 TraceSpec == Init /\ [][Next]_vars
 
 TraceAccepted ==
